@@ -50,7 +50,7 @@ func verifC13Gen(r *verifRng) verifC13Scenario {
 	}
 	s.Kind = []string{"local", "local", "local", "remote", "remote",
 		"remote", "pending", "breach", "coop"}[r.Intn(9)]
-	s.WithPending = s.Kind == "pending" || r.Chance(1, 4)
+	s.WithPending = s.Kind == "pending" || r.Chance(1, 2)
 	s.Via = "conf"
 	if s.Kind == "local" || r.Chance(1, 4) {
 		s.Via = "user"
@@ -60,7 +60,7 @@ func verifC13Gen(r *verifRng) verifC13Scenario {
 		return s
 	}
 
-	n := r.Intn(5)
+	n := []int{0, 1, 2, 2, 3, 3, 4, 4}[r.Intn(8)]
 	var nOut, nIn uint64
 	conf := s.Start + verifC13ConfOffset
 	for i := 0; i < n; i++ {
@@ -83,16 +83,25 @@ func verifC13Gen(r *verifRng) verifC13Scenario {
 			h.Expiry = uint32(conf) + uint32(3+r.Intn(3))
 		}
 		verifCCPresence(r, &h, s.WithPending)
-		// Mostly present with an output on the confirmed commitment:
-		// that is where the resolvers are.
-		if r.Chance(3, 4) {
+		// Half of the HTLCs sit on every commitment (that is where the
+		// resolvers are); the others keep the protocol-legal presence
+		// pattern drawn above (freshly added on one side only, being
+		// removed, ...), so the commitments of the persisted commit
+		// set differ in content and in output indexes.
+		if r.Chance(1, 2) {
 			h.OnL, h.OnR = true, true
 			if s.WithPending {
 				h.OnP = true
 			}
 		}
-		if r.Chance(1, 5) {
+		switch r.Intn(10) {
+		case 0, 1:
 			h.DustL, h.DustR, h.DustP = true, true, true
+		case 2:
+			// Dust limits / second-level fees differ per side.
+			h.DustL = true
+		case 3:
+			h.DustR, h.DustP = true, true
 		}
 		if h.Incoming {
 			switch r.Intn(4) {
@@ -106,7 +115,13 @@ func verifC13Gen(r *verifRng) verifC13Scenario {
 					h.LearnAt = conf + int32(2+r.Intn(4))
 				}
 			}
-		} else if r.Chance(1, 2) && !near {
+		} else if r.Chance(1, 2) && !near && !(h.DustL && !h.DustR) {
+			// (An HTLC that is dust on ours but an output on theirs
+			// is failed back as soon as we broadcast - lnd's
+			// documented dust trade-off, a C12 diagnostic. A later
+			// on-chain claim by the peer would then contradict that
+			// fail-back in every run, restart or not, so such HTLCs
+			// are left to time out.)
 			h.RemoteClaimAt = conf + int32(2+r.Intn(4))
 		}
 		s.Htlcs = append(s.Htlcs, h)
@@ -284,7 +299,9 @@ func verifC13Run(t *testing.T, dbPath string, s *verifC13Scenario,
 				}
 				op := wire.OutPoint{
 					Hash:  commitHash,
-					Index: uint32(verifCCOutputIndex(pos)),
+					Index: uint32(verifCCOutputIndex(
+						s.Htlcs, s.Kind, pos,
+					)),
 				}
 				_, spent := w.spends[op]
 				expired := uint32(w.height) >= h.Expiry
